@@ -184,6 +184,10 @@ impl<'a, D> BfsDist<'a, D> {
     ///
     /// * `digraph`: The digraph.
     /// * `sources`: The source vertices.
+    ///
+    /// # Panics
+    ///
+    /// Panics if a source vertex isn't in the digraph.
     #[must_use]
     pub fn new<T>(digraph: &'a D, sources: T) -> Self
     where
@@ -193,14 +197,13 @@ impl<'a, D> BfsDist<'a, D> {
         let order = digraph.order();
         let mut queue = VecDeque::with_capacity(order);
         let mut visited = vec![false; order];
-        let visited_ptr = visited.as_mut_ptr();
 
         for u in sources {
+            assert!(u < order, "u = {u} isn't in the digraph");
+
             queue.push_back((u, 0));
 
-            unsafe {
-                *visited_ptr.add(u) = true;
-            }
+            visited[u] = true;
         }
 
         Self {
@@ -316,17 +319,15 @@ where
     fn next(&mut self) -> Option<Self::Item> {
         let (u, w) = self.queue.pop_front()?;
         let w_next = w + 1;
-        let visited_ptr = self.visited.as_mut_ptr();
 
         for v in self.digraph.out_neighbors(u) {
-            let visited = unsafe { visited_ptr.add(v) };
+            // Checked: a successor may lie outside `0..order`.
+            let visited = &mut self.visited[v];
 
-            unsafe {
-                if !*visited {
-                    *visited = true;
+            if !*visited {
+                *visited = true;
 
-                    self.queue.push_back((v, w_next));
-                }
+                self.queue.push_back((v, w_next));
             }
         }
 
